@@ -325,6 +325,12 @@ class KGen:
         for _ in range(2):
             for c, fid in sorted(self.all_gated()):
                 ops.append({"op": "finish", "c": c, "fid": fid})
+        # a final observation of every open context: whatever happened must have left each pair
+        # resolving to what it resolved to before
+        for c, x in sorted(self.ctxs.items()):
+            if x["state"] == "open":
+                for ty in range(NT):
+                    ops.append({"op": "getall", "t": 0, "c": c, "ty": ty, "via": "method"})
         for t in sorted(self.stacks):
             while self.stacks[t]:
                 ops.append(self.exit_op(t))
